@@ -22,6 +22,7 @@ package main
 
 import (
 	"bytes"
+	"encoding/base64"
 	"encoding/json"
 	"errors"
 	"fmt"
@@ -1013,6 +1014,7 @@ func armNegative(r *mon.Run, nBodies, shards int) {
 		}(s)
 	}
 	wg.Wait()
+	r.Set("crashes_not_reproduced_in_a_fresh_child", wb.NotReproduced.Load())
 	for s := range res {
 		if res[s].err != nil {
 			r.Fatal("isolated negative arm: %v", res[s].err)
@@ -1077,6 +1079,61 @@ func armNegative(r *mon.Run, nBodies, shards int) {
 	}
 }
 
+// replay re-runs a negative-arm witness ({"op":..., "body_b64":...}) in an isolated child.
+func replay(r *mon.Run, path string) {
+	data, err := os.ReadFile(path)
+	if err != nil {
+		r.Fatal("replay: %v", err)
+	}
+	var doc struct {
+		Witness struct {
+			Op   string `json:"op"`
+			Body string `json:"body_b64"`
+		} `json:"witness"`
+	}
+	if err := json.Unmarshal(data, &doc); err != nil || doc.Witness.Op == "" {
+		r.Fatal("replay: %s is not a negative-arm witness of this check (%v); positive-arm witnesses carry their inputs inline", path, err)
+	}
+	body, err := base64.StdEncoding.DecodeString(doc.Witness.Body)
+	if err != nil {
+		r.Fatal("replay: body_b64: %v", err)
+	}
+	op := -1
+	for i, n := range negOps {
+		if n == doc.Witness.Op {
+			op = i
+		}
+	}
+	if op < 0 {
+		r.Fatal("replay: unknown op %q", doc.Witness.Op)
+	}
+	outs, err := mon.RunIsolated("c01neg", [][]byte{append([]byte{byte(op)}, body...)}, mon.ChildOpt{VMemKiB: 8 << 20, Timeout: 3 * time.Minute})
+	if err != nil {
+		r.Fatal("replay: %v", err)
+	}
+	rep := wb.Walk(body)
+	o := outs[0]
+	r.Case("replay")
+	fmt.Printf("REPLAY op=%s frame_class=%s crashed=%v panicked=%v output=%s\n", doc.Witness.Op, rep.Class, o.Crashed, o.Panicked, trunc(string(o.Output)))
+	w := map[string]any{"op": doc.Witness.Op, "frame_class": rep.Class, "body_b64": doc.Witness.Body}
+	switch {
+	case o.Crashed:
+		w["stderr"] = o.Detail
+		r.Violation(fmt.Sprintf("neg:%s:crash:%s:%s:%s", doc.Witness.Op, wb.CrashKind(o.Detail), rep.Class, wb.AllocSite(o.Detail)), "replayed case killed the process", w)
+	case o.Panicked:
+		r.Violation(fmt.Sprintf("neg:%s:panic:%s:%s", doc.Witness.Op, rep.Class, wb.PanicSite(o.Detail)), "replayed case panicked", w)
+	default:
+		var no negOut
+		_ = json.Unmarshal(o.Output, &no)
+		if no.Panic != "" {
+			w["panic"] = no.Panic
+			r.Violation(fmt.Sprintf("neg:%s:panic:%s:%s", doc.Witness.Op, rep.Class, wb.PanicSite(no.Panic)), "replayed case panicked: "+firstLine(no.Panic), w)
+		} else if no.Bad != "" {
+			r.Violation(fmt.Sprintf("neg:%s:untyped-failure:%s", doc.Witness.Op, slugBad(no.Bad)), no.Bad, w)
+		}
+	}
+}
+
 func slugBad(s string) string {
 	s = strings.ToLower(s)
 	var sb strings.Builder
@@ -1121,6 +1178,10 @@ func main() {
 	mon.ChildMain(map[string]mon.ChildFunc{"c01neg": childNeg})
 	r := mon.Start("C01")
 	defer r.Finish()
+	if p := r.ReplayPath(); p != "" {
+		replay(r, p)
+		return
+	}
 	r.SetRule("positive arms: generated (method, protocol_version, params batch over 0..12 columns of the supported Arrow types incl. nested/dictionary/sliced, 1 row) framed with WriteRequest and read back (1..3 requests per reader); unary envelopes over payload classes x response shapes; token finders over 1..4 concatenated streams x placement shapes. negative arm: mutated/truncated/noise bodies x 4 helpers in isolated children. distinct = distinct (arm, schema fingerprint, values/shape) signatures")
 	r.Assume("batch equality is decided by gen.CanonValues (harness renderer), stream structure by gen.ReadIPC (arrow-go reader on bytes the library wrote); arrow-go's IPC writer/reader are trusted for well-formed data")
 	r.Assume("token model (from the FindStateToken/FindStreamTokens documentation): first non-empty cursor across the concatenated streams; the call token is stamped on the cursor's batch or an earlier one; empty-string values count as absent")
